@@ -27,6 +27,8 @@ struct Inst {
     ts_emit: f64,
     /// Expires as sender instant (whole seconds after BASE)
     expires: i64,
+    /// the instance lists the object under test (otherwise another TOI only)
+    lists: bool,
 }
 
 #[derive(Clone, Debug)]
@@ -44,8 +46,8 @@ struct Scn {
 fn fdt_packets(tsi: u64, inst: &Inst, sct: bool, data_len: usize, md5: &str, e: usize) -> Vec<Vec<u8>> {
     let expires_ntp = (BASE as i64 + inst.expires) as u64 + NTP_UNIX_OFFSET;
     let xml = format!(
-        "<?xml version=\"1.0\" encoding=\"UTF-8\"?>\n<FDT-Instance xmlns=\"urn:IETF:metadata:2005:FLUTE:FDT\" Expires=\"{}\" FEC-OTI-FEC-Encoding-ID=\"0\" FEC-OTI-Maximum-Source-Block-Length=\"64\" FEC-OTI-Encoding-Symbol-Length=\"{}\"><File TOI=\"5\" Content-Location=\"file:///x/expiry.bin\" Content-Length=\"{}\" Transfer-Length=\"{}\" Content-MD5=\"{}\"/></FDT-Instance>",
-        expires_ntp, e, data_len, data_len, md5);
+        "<?xml version=\"1.0\" encoding=\"UTF-8\"?>\n<FDT-Instance xmlns=\"urn:IETF:metadata:2005:FLUTE:FDT\" Expires=\"{}\" FEC-OTI-FEC-Encoding-ID=\"0\" FEC-OTI-Maximum-Source-Block-Length=\"64\" FEC-OTI-Encoding-Symbol-Length=\"{}\"><File TOI=\"{}\" Content-Location=\"file:///x/{}.bin\" Content-Length=\"{}\" Transfer-Length=\"{}\" Content-MD5=\"{}\"/></FDT-Instance>",
+        expires_ntp, e, if inst.lists { 5 } else { 6 }, if inst.lists { "expiry" } else { "other" }, data_len, data_len, md5);
     let x = xml.as_bytes();
     let fe = 600usize;
     let k = x.len().div_ceil(fe);
@@ -127,7 +129,7 @@ fn expected(s: &Scn, skew: f64) -> bool {
     let est = |i: &Inst, tr: f64| if s.sct { tr - (i.ts_emit + s.transit + skew - i.ts_emit) } else { tr };
     // candidate start instants: the object's first packet (instances complete before it), or the
     // completion of an instance arriving after the object
-    for i in &arrivals {
+    for i in arrivals.iter().filter(|i| i.lists) {
         let tr_fdt = i.ts_emit + s.transit + skew;
         // the instance itself must be unexpired when it completes
         if est(i, tr_fdt) > i.expires as f64 {
@@ -168,14 +170,14 @@ fn main() {
                     for &check in &[true, false] {
                         for &object_first in &[false, true] {
                             for &transit in &[0.0f64, 0.2] {
-                                for variant in 0..4 {
+                                for variant in 0..5 {
                                     // publish at sender second pub_t (100.37 in the quick tier); Expires = floor + dur
                                     let expires = 100 + dur;
                                     let ts_obj_rel = expires as f64 + off;
                                     if !object_first && ts_obj_rel <= pub_t + 1.0 {
                                         continue; // the object would travel before its FDT
                                     }
-                                    let mut insts = vec![Inst { id: 1, ts_emit: pub_t, expires }];
+                                    let mut insts = vec![Inst { id: 1, ts_emit: pub_t, expires, lists: true }];
                                     let (ts_obj, inband_fti);
                                     if object_first {
                                         // the object is emitted first; the FDT instance is emitted later, at expires+off
@@ -190,12 +192,21 @@ fn main() {
                                         2 => {
                                             // renewed by a later instance (valid one hour more) emitted 1 s before the object
                                             let t2 = if object_first { insts[0].ts_emit + 1.0 } else { ts_obj - 1.0 };
-                                            insts.push(Inst { id: 2, ts_emit: t2, expires: t2.floor() as i64 + 3600 });
+                                            insts.push(Inst { id: 2, ts_emit: t2, expires: t2.floor() as i64 + 3600, lists: true });
                                         }
                                         3 => {
                                             // a second instance that is already expired when emitted
                                             let t2 = if object_first { insts[0].ts_emit + 1.0 } else { ts_obj - 1.0 };
-                                            insts.push(Inst { id: 2, ts_emit: t2, expires: t2.floor() as i64 - 20 });
+                                            insts.push(Inst { id: 2, ts_emit: t2, expires: t2.floor() as i64 - 20, lists: true });
+                                        }
+                                        4 => {
+                                            // a newer, valid instance that does NOT list the object (it announces another one):
+                                            // the object stays announced only by the first instance
+                                            let t2 = if object_first { insts[0].ts_emit + 1.0 } else { ts_obj - 1.0 };
+                                            if t2 <= insts[0].ts_emit {
+                                                continue;
+                                            }
+                                            insts.push(Inst { id: 2, ts_emit: t2, expires: t2.floor() as i64 + 3600, lists: false });
                                         }
                                         _ => {}
                                     }
